@@ -69,6 +69,25 @@ fn case<S: Scheme>(ctx: &mut Ctx, rng: &mut ChaCha20Rng) {
         expect_not_accept(ctx, &o, "value-perturbed", "batch_check",
             json!({"tx": txj, "queries": q.json(), "poly": key.0, "delta": dname, "position": (start + t) % keys.len()}));
     }
+    // ---- (a') the false value is the value claimed for a neighbouring polynomial at the same point
+    for g in q.groups.iter().filter(|g| g.2.len() >= 2) {
+        let i = below(rng, g.2.len());
+        for j in [i.wrapping_sub(1), i + 1] {
+            if j >= g.2.len() {
+                continue;
+            }
+            let (ki, kj) = ((g.2[i].clone(), g.1.clone()), (g.2[j].clone(), g.1.clone()));
+            if q.evals[&ki] == q.evals[&kj] {
+                continue;
+            }
+            let mut ev = q.evals.clone();
+            ev.insert(ki.clone(), q.evals[&kj]);
+            // the same (label, point value) may be queried under another point label; the claim is false there too
+            let o = batch_check::<S>(&tx.w.vk, &tx.c.comms, &q.qs, &ev, &proof, &mut tx.sponge(), rng.next_u64());
+            expect_not_accept(ctx, &o, "value-perturbed", "batch_check",
+                json!({"tx": txj, "queries": q.json(), "poly": ki.0, "delta": "value-of-neighbour", "neighbour": kj.0, "position": i}));
+        }
+    }
     // ---- (b) point replaced under one point label
     {
         let gi = below(rng, q.groups.len());
@@ -152,6 +171,21 @@ fn case<S: Scheme>(ctx: &mut Ctx, rng: &mut ChaCha20Rng) {
         dj["position"] = json!(pos);
         dj["delta"] = json!(dname);
         expect_not_accept(ctx, &o, "value-perturbed", "check", dj);
+    }
+    for pos in 0..values.len() {
+        for j in [pos.wrapping_sub(1), pos + 1] {
+            if j >= values.len() || values[j] == values[pos] {
+                continue;
+            }
+            let mut vs = values.clone();
+            vs[pos] = values[j];
+            let o = check::<S>(&tx.w.vk, &comms, &z, &vs, &sproof, &mut tx.sponge(), 5);
+            let mut dj = sdesc.clone();
+            dj["position"] = json!(pos);
+            dj["delta"] = json!("value-of-neighbour");
+            dj["neighbour_position"] = json!(j);
+            expect_not_accept(ctx, &o, "value-perturbed", "check", dj);
+        }
     }
     {
         let z2 = S::other_point(&tx.w.cfg, &z, rng);
